@@ -30,14 +30,35 @@ DIST = [PSI, HellingerDistance, BhattacharyyaDistance, HINormalizedComplement, J
 STAT = [AndersonDarlingTest, BWSTest, ChiSquareTest, CVMTest, KSTest, KuiperTest, MannWhitneyUTest, WelchTTest]
 
 
+PATH_FORM = [0]
+
+
 def roundtrip(obj, protocol):
+    """save + load through a file name whose FORM rotates: absolute path, bare file name relative to the working directory, relative path with a directory part"""
     fd, path = tempfile.mkstemp(suffix=".pkl", dir="/tmp")
     os.close(fd)
     os.unlink(path)
+    PATH_FORM[0] += 1
+    form = PATH_FORM[0] % 3
+    cwd = os.getcwd()
     try:
-        save(obj, filename=path, pickle_protocol=protocol)
-        return load(filename=path)
+        if form == 0:
+            name = path
+        else:
+            d = tempfile.mkdtemp(dir="/tmp")
+            os.chdir(d)
+            if form == 1:
+                name = os.path.basename(path)
+            else:
+                os.mkdir("sub")
+                name = os.path.join("sub", os.path.basename(path))
+        save(obj, filename=name, pickle_protocol=protocol)
+        return load(filename=name)
     finally:
+        if form != 0:
+            import shutil
+            os.chdir(cwd)
+            shutil.rmtree(d, ignore_errors=True)
         if os.path.exists(path):
             os.unlink(path)
 
@@ -184,7 +205,11 @@ def streaming_case(out: Outcome, rng, protocol: int) -> None:
         for v in vals[:k]:
             det.update(value=v)
         rep = {"detector": name, "protocol": protocol, "save_point": k}
-        loaded = roundtrip(det, protocol)
+        try:
+            loaded = roundtrip(det, protocol)
+        except Exception as e:  # noqa: BLE001
+            out.violation(f"{name}: save/load raised {type(e).__name__}: {e}", rep)
+            continue
         if snap(loaded) != snap(det) or type(loaded) is not type(det):
             out.violation(f"{name}: loaded detector differs from the original (type/state)", rep)
             continue
@@ -248,7 +273,11 @@ def run(out: Outcome) -> None:
     # callbacks on their own
     for cb in (HistoryConceptDrift(name="h"), PermutationTestDistanceBased(num_permutations=7, random_state=1, name="p"), ResetStatisticalTest(alpha=0.05, name="r")):
         for proto in (protos if thorough else [0, pickle.HIGHEST_PROTOCOL]):
-            l = roundtrip(cb, proto)
+            try:
+                l = roundtrip(cb, proto)
+            except Exception as e:  # noqa: BLE001
+                out.violation(f"{type(cb).__name__}: save/load of a callback raised {type(e).__name__}: {e}", {"callback": type(cb).__name__, "protocol": proto})
+                continue
             if type(l) is not type(cb) or snap(l) != snap(cb):
                 out.violation(f"{type(cb).__name__}: loaded callback differs from the original", {"callback": type(cb).__name__, "protocol": proto})
             out.case({"callback": type(cb).__name__, "protocol": proto})
